@@ -181,6 +181,32 @@ PArgs(toks, i, fe, args, curly) ==
   ELSE IF (K(toks, i) = "close" /\ ~curly) \/ (K(toks, i) = "curlyclose" /\ curly) THEN Ok([fe EXCEPT !.args = Args(args)], i + 1)
   ELSE Err(i + 1)
 
+(* parse_fields: the select list - expressions separated by commas up to the first token that cannot start one (FROM, WHERE, ...)  *)
+(* or that spells a root option; `select` itself is skipped wherever it stands.  Returns [ok, list, i].  Not modelled (the model   *)
+(* abstains, ok = FALSE): `*` as a column and a column list that runs into GROUP BY.                                              *)
+StartsWith(s, p) == Len(s) >= Len(p) /\ SubSeq(s, 1, Len(p)) = p
+IsRootOptionWord(low) ==            \* is_root_option_keyword
+  \/ low \in { <<"d","e","p","t","h">>, <<"m","i","n","d","e","p","t","h">>, <<"m","a","x","d","e","p","t","h">>, <<"b","f","s">>, <<"d","f","s">> }
+  \/ \E p \in { <<"a","r","c">>, <<"s","y","m">>, <<"g","i","t">>, <<"h","g">>, <<"d","o","c","k">>, <<"n","o","g","i","t">>, <<"n","o","h","g">>,
+                 <<"n","o","d","o","c","k">>, <<"r","e","g","e","x">> } : StartsWith(low, p)
+RECURSIVE PFields(_, _, _)
+PFields(toks, i, acc) ==
+  IF K(toks, i) = "comma" THEN PFields(toks, i + 1, acc)
+  ELSE IF K(toks, i) \in {"string", "raw", "arith"} THEN
+     LET low == LowerSeq(S(toks, i)) IN
+     IF low = <<"s","e","l","e","c","t">> THEN PFields(toks, i + 1, acc)
+     ELSE IF S(toks, i) = <<"*">> \/ low = <<"g","r","o","u","p">> THEN [ok |-> FALSE, list |-> acc, i |-> i]
+     ELSE IF IsRootOptionWord(low) THEN [ok |-> acc # <<>>, list |-> acc, i |-> i]
+     ELSE LET e == PExpr(toks, i) IN
+          IF ~e.ok THEN [ok |-> FALSE, list |-> acc, i |-> e.i]
+          ELSE IF e.i = i THEN [ok |-> FALSE, list |-> acc, i |-> i]                 \* (nothing consumed: the code would not advance either)
+          ELSE PFields(toks, e.i, IF IsNone(e.e) THEN acc ELSE Append(acc, e.e))
+  ELSE IF K(toks, i) \in {"open", "curlyopen"} THEN
+     LET e == PExpr(toks, i) IN
+     IF ~e.ok THEN [ok |-> FALSE, list |-> acc, i |-> e.i] ELSE PFields(toks, e.i, IF IsNone(e.e) THEN acc ELSE Append(acc, e.e))
+  ELSE [ok |-> acc # <<>>, list |-> acc, i |-> i]
+ParseFields(toks) == PFields(toks, 1, <<>>)
+
 (* parse_where on a whole query: the expression after the WHERE token, "None" without WHERE *)
 WhereIndex(toks) == IF \E i \in 1 .. Len(toks) : toks[i].k = "where" THEN CHOOSE i \in 1 .. Len(toks) : toks[i].k = "where" /\ \A j \in 1 .. i - 1 : toks[j].k # "where" ELSE 0
 ParseWhere(toks) == IF WhereIndex(toks) = 0 THEN Ok(NE, 1) ELSE PExpr(toks, WhereIndex(toks) + 1)
